@@ -7,7 +7,7 @@
    flat sequence (the f_* functions below, R3-simulations), and the characterisations are proved
    about the flat loops by arithmetic on indices. *)
 From Coq Require Import List NArith ZArith Lia Bool ZifyN ZifyBool ZifyNat.
-From NV Require Import Bytes UcDefs MotDefs MotProps.
+From NV Require Import Bytes UcDefs GenUcTables GenConf MotDefs MotProps.
 Import ListNotations.
 Local Open Scope Z_scope.
 
@@ -1130,4 +1130,274 @@ Proof.
       * intros t Ht. apply Hmin. lia.
     + right. exists o1, c, pidx. split; [exact PF|]. intros t Ht Hr. apply HF; [lia|exact Hr].
   - left. eapply pair_scan_none; [exact El|lia| |exact ES]. unfold slen. lia.
+Qed.
+
+(* ---------- h l : vi_nextcol over the column model of a left-to-right line ---------- *)
+(* every character occupies at least one cell *)
+Lemma ph_wid_ok : forallb (fun p : list N * list N * Z => 1 <=? snd p) placeholders = true.
+Proof. vm_compute. reflexivity. Qed.
+Lemma ascii_code_m : forallb (fun c => if (c <? 128)%N then negb (bit c 128 && bit c 64) else true) bytes256 = true.
+Proof. vm_compute. reflexivity. Qed.
+Lemma code_ascii (c : chr) : (b0 c < 128)%N -> code c = b0 c.
+Proof.
+  intro H. unfold code, uc_code, b0 in *. replace (nthb c 0) with (hd0 c) by (destruct c; reflexivity).
+  pose proof (byte_sweep _ ascii_code_m (hd0 c) ltac:(lia)) as K. cbv beta in K.
+  destruct (hd0 c <? 128)%N eqn:E; [|lia]. rewrite K. reflexivity.
+Qed.
+Lemma zw_min_gt : 127 <? zw_min = true. Proof. vm_compute. reflexivity. Qed.
+
+Lemma cwid_pos c pos : 0 <= pos -> 1 <= ren_cwid c pos.
+Proof.
+  intro Hp. unfold ren_cwid. destruct (N.eqb (b0 c) 9).
+  - change 7 with (Z.ones 3). rewrite Z.land_ones by lia. change (2 ^ 3) with 8. lia.
+  - unfold ren_placeholder_wid.
+    destruct (if N.eqb (N.land (b0 c) ph_bits) ph_bits
+              then find (fun p => N.eqb (hd0 (fst (fst p))) (b0 c) && N.eqb (uc_code (fst (fst p))) (code c)) placeholders
+              else None) as [p|] eqn:E.
+    + destruct (N.eqb (N.land (b0 c) ph_bits) ph_bits); [|discriminate]. apply find_some in E. destruct E as [Hin _].
+      pose proof ph_wid_ok as K. rewrite forallb_forall in K. specialize (K _ Hin). apply Z.leb_le in K. exact K.
+    + destruct (uc_isbell c) eqn:B; [lia|]. unfold uc_wid.
+      assert (Z : uc_iszw (Z.of_N (code c)) = false).
+      { unfold uc_isbell in B.
+        destruct ((Z.of_N (b0 c) =? 32) || (Z.of_N (b0 c) =? 9) || (Z.of_N (b0 c) =? 10) || ((32 <=? Z.of_N (b0 c)) && (Z.of_N (b0 c) <? 127))) eqn:P.
+        - assert (b0 c < 128)%N by lia. rewrite code_ascii by assumption. unfold uc_iszw. pose proof zw_min_gt.
+          destruct (zw_min <=? Z.of_N (b0 c)) eqn:E1; [lia|reflexivity].
+        - apply orb_false_iff in B. apply B. }
+      rewrite Z. destruct (uc_isdw _); lia.
+Qed.
+
+Definition incr (ps : list Z) : Prop := forall i j, (i < j < length ps)%nat -> nth i ps 0 < nth j ps 0.
+
+Lemma ren_position_len l : forall c, length (ren_position l c) = S (length l).
+Proof. induction l as [|x l IH]; intro c; cbn [ren_position length]; [reflexivity|]. rewrite IH. reflexivity. Qed.
+
+Lemma ren_position_incr l : forall c, 0 <= c ->
+  (forall k, (k < length (ren_position l c))%nat -> c <= nth k (ren_position l c) 0) /\ incr (ren_position l c).
+Proof.
+  induction l as [|x l IH]; intros c Hc; cbn [ren_position].
+  - split; [intros [|[|k]] Hk; cbn in *; lia|]. intros i j Hij. cbn in Hij. lia.
+  - pose proof (cwid_pos x c Hc) as Hw. destruct (IH (c + ren_cwid x c) ltac:(lia)) as [H1 H2]. split.
+    + intros [|k] Hk; cbn [nth length] in *; [lia|]. specialize (H1 k ltac:(lia)). lia.
+    + intros [|i] [|j] Hij; cbn [nth length] in *; try lia.
+      * specialize (H1 j ltac:(lia)). lia.
+      * apply H2. lia.
+Qed.
+
+Lemma nth_firstn_lt (ps : list Z) : forall n k, (k < n)%nat -> nth k (firstn n ps) 0 = nth k ps 0.
+Proof.
+  induction ps as [|x ps IH]; intros n k Hk.
+  - rewrite firstn_nil. reflexivity.
+  - destruct n as [|n]; [lia|]. cbn [firstn]. destruct k as [|k]; [reflexivity|]. cbn [nth]. apply IH. lia.
+Qed.
+
+Lemma positions_len l : length (positions l) = length l.
+Proof. unfold positions. rewrite firstn_length, ren_position_len. lia. Qed.
+Lemma positions_incr l : incr (positions l) /\ (forall k, (k < length l)%nat -> 0 <= nth k (positions l) 0).
+Proof.
+  destruct (ren_position_incr l 0 ltac:(lia)) as [H1 H2]. unfold incr. rewrite positions_len. unfold positions. split.
+  - intros i j Hij. rewrite !nth_firstn_lt by lia. apply H2. rewrite ren_position_len. lia.
+  - intros k Hk. rewrite nth_firstn_lt by lia. apply H1. rewrite ren_position_len. lia.
+Qed.
+
+Lemma fold_max_spec (Q : Z -> bool) : forall ps acc,
+  match fold_left (fun ret x => if Q x && (match ret with None => true | Some y => y <? x end) then Some x else ret) ps acc with
+  | None => acc = None /\ forall x, In x ps -> Q x = false
+  | Some v => (acc = Some v \/ (In v ps /\ Q v = true)) /\ (forall x, In x ps -> Q x = true -> x <= v) /\
+              (forall y, acc = Some y -> y <= v)
+  end.
+Proof.
+  induction ps as [|x ps IH]; intro acc; cbn [fold_left].
+  - destruct acc as [v|]; [|split; [reflexivity|intros x []]]. split; [auto|]. split; [intros x []|]. intros y E. inversion E. lia.
+  - specialize (IH (if Q x && (match acc with None => true | Some y => y <? x end) then Some x else acc)).
+    destruct (fold_left _ ps _) as [v|].
+    + destruct IH as (H1 & H2 & H3).
+      destruct (Q x && (match acc with None => true | Some y => y <? x end)) eqn:C.
+      * apply andb_true_iff in C. destruct C as [C1 C2]. pose proof (H3 x eq_refl) as Hxv. split; [|split].
+        -- destruct H1 as [H1|[H1 H1']]; [inversion H1; subst; right; split; [left; reflexivity|exact C1]|right; split; [right; exact H1|exact H1']].
+        -- intros x' [<-|Hin] Hq; [exact Hxv|apply H2; assumption].
+        -- intros y ->. destruct (Z.ltb_spec y x); [lia|discriminate].
+      * split; [|split].
+        -- destruct H1 as [H1|[H1 H1']]; [left; exact H1|right; split; [right; exact H1|exact H1']].
+        -- intros x' [<-|Hin] Hq; [|apply H2; assumption]. rewrite Hq in C. cbn [andb] in C.
+           destruct acc as [y|]; [|discriminate]. specialize (H3 y eq_refl). destruct (Z.ltb_spec y x); [discriminate|lia].
+        -- exact H3.
+    + destruct IH as (H1 & H2).
+      destruct (Q x && (match acc with None => true | Some y => y <? x end)) eqn:C; [discriminate|]. subst acc.
+      rewrite andb_true_r in C. split; [reflexivity|]. intros x' [<-|Hin]; [exact C|apply H2, Hin].
+Qed.
+
+Lemma fold_min_spec (Q : Z -> bool) : forall ps acc,
+  match fold_left (fun ret x => if Q x && (match ret with None => true | Some y => x <? y end) then Some x else ret) ps acc with
+  | None => acc = None /\ forall x, In x ps -> Q x = false
+  | Some v => (acc = Some v \/ (In v ps /\ Q v = true)) /\ (forall x, In x ps -> Q x = true -> v <= x) /\
+              (forall y, acc = Some y -> v <= y)
+  end.
+Proof.
+  induction ps as [|x ps IH]; intro acc; cbn [fold_left].
+  - destruct acc as [v|]; [|split; [reflexivity|intros x []]]. split; [auto|]. split; [intros x []|]. intros y E. inversion E. lia.
+  - specialize (IH (if Q x && (match acc with None => true | Some y => x <? y end) then Some x else acc)).
+    destruct (fold_left _ ps _) as [v|].
+    + destruct IH as (H1 & H2 & H3).
+      destruct (Q x && (match acc with None => true | Some y => x <? y end)) eqn:C.
+      * apply andb_true_iff in C. destruct C as [C1 C2]. pose proof (H3 x eq_refl) as Hxv. split; [|split].
+        -- destruct H1 as [H1|[H1 H1']]; [inversion H1; subst; right; split; [left; reflexivity|exact C1]|right; split; [right; exact H1|exact H1']].
+        -- intros x' [<-|Hin] Hq; [exact Hxv|apply H2; assumption].
+        -- intros y ->. destruct (Z.ltb_spec x y); [lia|discriminate].
+      * split; [|split].
+        -- destruct H1 as [H1|[H1 H1']]; [left; exact H1|right; split; [right; exact H1|exact H1']].
+        -- intros x' [<-|Hin] Hq; [|apply H2; assumption]. rewrite Hq in C. cbn [andb] in C.
+           destruct acc as [y|]; [|discriminate]. specialize (H3 y eq_refl). destruct (Z.ltb_spec x y); [discriminate|lia].
+        -- exact H3.
+    + destruct IH as (H1 & H2).
+      destruct (Q x && (match acc with None => true | Some y => x <? y end)) eqn:C; [discriminate|]. subst acc.
+      rewrite andb_true_r in C. split; [reflexivity|]. intros x' [<-|Hin]; [exact C|apply H2, Hin].
+Qed.
+
+Lemma last_index_spec p : forall ps i acc,
+  (last_index ps p i acc = acc /\ forall k, (k < length ps)%nat -> nth k ps 0 <> p) \/
+  (exists k, (k < length ps)%nat /\ last_index ps p i acc = i + Z.of_nat k /\ nth k ps 0 = p /\
+             forall k', (k < k' < length ps)%nat -> nth k' ps 0 <> p).
+Proof.
+  induction ps as [|x ps IH]; intros i acc; cbn [last_index].
+  - left. split; [reflexivity|]. intros k Hk. cbn in Hk. lia.
+  - destruct (IH (i + 1) (if x =? p then i else acc)) as [[E H]|(k & Hk & E & Hp & H)].
+    + destruct (Z.eqb_spec x p) as [->|Hne].
+      * right. exists 0%nat. cbn [length nth]. split; [lia|]. split; [lia|]. split; [reflexivity|].
+        intros [|k'] Hk'; [lia|]. cbn [nth]. apply H. lia.
+      * left. split; [exact E|]. intros [|k] Hk; cbn [nth length] in *; [exact Hne|apply H; lia].
+    + right. exists (S k). cbn [length nth]. split; [lia|]. split; [lia|]. split; [exact Hp|].
+      intros [|k'] Hk'; [lia|]. cbn [nth]. apply H. lia.
+Qed.
+
+Lemma pos_prev_spec ps p cur :
+  (pos_prev ps p cur = -1 /\ forall x, In x ps -> ~ (x + (if cur then 0 else 1) <= p)) \/
+  (In (pos_prev ps p cur) ps /\ pos_prev ps p cur + (if cur then 0 else 1) <= p /\
+   forall x, In x ps -> x + (if cur then 0 else 1) <= p -> x <= pos_prev ps p cur).
+Proof.
+  unfold pos_prev.
+  pose proof (fold_max_spec (fun x => x + (if cur then 0 else 1) <=? p) ps None) as H. cbv beta in H. revert H.
+  destruct (fold_left _ ps None) as [v|]; intro H.
+  - right. destruct H as ([H1|[H1 H1']] & H2 & _); [discriminate|]. split; [exact H1|]. split; [lia|].
+    intros x Hx Hq. apply H2; [exact Hx|lia].
+  - left. destruct H as [_ H]. split; [reflexivity|]. intros x Hx Hq. specialize (H x Hx). lia.
+Qed.
+
+Lemma pos_next_spec ps p cur :
+  (pos_next ps p cur = -1 /\ forall x, In x ps -> ~ (x - (if cur then 0 else 1) >= p)) \/
+  (In (pos_next ps p cur) ps /\ pos_next ps p cur - (if cur then 0 else 1) >= p /\
+   forall x, In x ps -> x - (if cur then 0 else 1) >= p -> pos_next ps p cur <= x).
+Proof.
+  unfold pos_next.
+  pose proof (fold_min_spec (fun x => x - (if cur then 0 else 1) >=? p) ps None) as H. cbv beta in H. revert H.
+  destruct (fold_left _ ps None) as [v|]; intro H.
+  - right. destruct H as ([H1|[H1 H1']] & H2 & _); [discriminate|]. split; [exact H1|]. split; [lia|].
+    intros x Hx Hq. apply H2; [exact Hx|lia].
+  - left. destruct H as [_ H]. split; [reflexivity|]. intros x Hx Hq. specialize (H x Hx). lia.
+Qed.
+
+Section IncrCols.
+  Variable ps : list Z.
+  Hypothesis Hinc : incr ps.
+
+  Lemma incr_le i j : (i <= j < length ps)%nat -> nth i ps 0 <= nth j ps 0.
+  Proof. intro H. destruct (Nat.eq_dec i j) as [->|]; [lia|]. pose proof (Hinc i j ltac:(lia)). lia. Qed.
+  Lemma incr_lt_inv i j : (i < length ps)%nat -> (j < length ps)%nat -> nth i ps 0 < nth j ps 0 -> (i < j)%nat.
+  Proof. intros Hi Hj H. destruct (Nat.lt_ge_cases i j) as [Hl|Hl]; [exact Hl|]. pose proof (incr_le j i ltac:(lia)). lia. Qed.
+  Lemma incr_inj i j : (i < length ps)%nat -> (j < length ps)%nat -> nth i ps 0 = nth j ps 0 -> i = j.
+  Proof.
+    intros Hi Hj H. destruct (Nat.lt_trichotomy i j) as [Hl|[Hl|Hl]]; [|exact Hl|].
+    - pose proof (Hinc i j ltac:(lia)). lia.
+    - pose proof (Hinc j i ltac:(lia)). lia.
+  Qed.
+
+  Lemma pos_prev_self k : (k < length ps)%nat -> pos_prev ps (nth k ps 0) true = nth k ps 0.
+  Proof.
+    intro Hk. destruct (pos_prev_spec ps (nth k ps 0) true) as [[_ H]|(H1 & H2 & H3)].
+    - exfalso. apply (H (nth k ps 0)); [apply nth_In, Hk|lia].
+    - specialize (H3 (nth k ps 0) (nth_In _ _ Hk) ltac:(lia)). lia.
+  Qed.
+
+  Lemma pos_next_succ k : (k < length ps)%nat ->
+    pos_next ps (nth k ps 0) false = if (S k <? length ps)%nat then nth (S k) ps 0 else -1.
+  Proof.
+    intro Hk. destruct (Nat.ltb_spec (S k) (length ps)) as [Hl|Hl].
+    - destruct (pos_next_spec ps (nth k ps 0) false) as [[_ H]|(H1 & H2 & H3)].
+      + exfalso. apply (H (nth (S k) ps 0)); [apply nth_In, Hl|]. pose proof (Hinc k (S k) ltac:(lia)). lia.
+      + apply (In_nth _ _ 0) in H1. destruct H1 as (j & Hj & Ej). rewrite <- Ej in *.
+        assert (k < j)%nat by (apply incr_lt_inv; [lia|lia|lia]).
+        specialize (H3 (nth (S k) ps 0) (nth_In _ _ Hl)). pose proof (Hinc k (S k) ltac:(lia)).
+        pose proof (incr_le (S k) j ltac:(lia)). lia.
+    - destruct (pos_next_spec ps (nth k ps 0) false) as [[H _]|(H1 & H2 & H3)]; [exact H|]. exfalso.
+      apply (In_nth _ _ 0) in H1. destruct H1 as (j & Hj & Ej). rewrite <- Ej in *.
+      assert (k < j)%nat by (apply incr_lt_inv; [lia|lia|lia]). lia.
+  Qed.
+
+  Lemma pos_prev_pred k : (k < length ps)%nat ->
+    pos_prev ps (nth k ps 0) false = if (0 <? k)%nat then nth (k - 1) ps 0 else -1.
+  Proof.
+    intro Hk. destruct (Nat.ltb_spec 0 k) as [Hl|Hl].
+    - destruct (pos_prev_spec ps (nth k ps 0) false) as [[_ H]|(H1 & H2 & H3)].
+      + exfalso. apply (H (nth (k - 1) ps 0)); [apply nth_In; lia|]. pose proof (Hinc (k - 1)%nat k ltac:(lia)). lia.
+      + apply (In_nth _ _ 0) in H1. destruct H1 as (j & Hj & Ej). rewrite <- Ej in *.
+        assert (j < k)%nat by (apply incr_lt_inv; [lia|lia|lia]).
+        assert (Hk1 : (k - 1 < length ps)%nat) by lia.
+        specialize (H3 (nth (k - 1) ps 0) (nth_In _ _ Hk1)). pose proof (Hinc (k - 1)%nat k ltac:(lia)).
+        pose proof (incr_le j (k - 1)%nat ltac:(lia)). lia.
+    - destruct (pos_prev_spec ps (nth k ps 0) false) as [[H _]|(H1 & H2 & H3)]; [exact H|]. exfalso.
+      apply (In_nth _ _ 0) in H1. destruct H1 as (j & Hj & Ej). rewrite <- Ej in *.
+      assert (j < k)%nat by (apply incr_lt_inv; [lia|lia|lia]). lia.
+  Qed.
+
+  Lemma last_index_self k : (k < length ps)%nat -> last_index ps (nth k ps 0) 0 (-1) = Z.of_nat k.
+  Proof.
+    intro Hk. destruct (last_index_spec (nth k ps 0) ps 0 (-1)) as [[_ H]|(j & Hj & E & Hp & _)].
+    - exfalso. apply (H k Hk). reflexivity.
+    - apply incr_inj in Hp; [|lia|lia]. subst j. lia.
+  Qed.
+End IncrCols.
+
+Lemma ren_off_pos l k : (k < length l)%nat -> ren_off l (nth k (positions l) 0) = Z.of_nat k.
+Proof.
+  intro Hk. destruct (positions_incr l) as [Hi Hn]. unfold ren_off. cbv zeta.
+  rewrite pos_prev_self by (rewrite positions_len; exact Hk).
+  rewrite last_index_self by (try exact Hi; rewrite positions_len; exact Hk).
+  destruct (Z.leb_spec 0 (Z.of_nat k)); [reflexivity|lia].
+Qed.
+
+(* h / l one step: the neighbouring character of the line, unless that is outside the line or the terminator *)
+Lemma nextcol_spec b dir r o l : dir = 1 \/ dir = -1 -> getl b r = Some l -> 0 <= o < slen l ->
+  vi_nextcol b dir (r, o) =
+  Some (if (0 <=? o + dir) && (o + dir <? slen l) && negb (N.eqb (b0 (chr_at l (o + dir))) 10)
+        then (false, (r, o + dir)) else (true, (r, o))).
+Proof.
+  intros Hd El Ho. unfold vi_nextcol. rewrite El. destruct (positions_incr l) as [Hi Hn].
+  set (k := Z.to_nat o). assert (Hk : (k < length l)%nat) by (unfold slen in Ho; lia).
+  assert (Epos : ren_pos l o = nth k (positions l) 0).
+  { unfold ren_pos. destruct (Z.leb_spec 0 o); [|lia]. destruct (Z.ltb_spec o (slen l)); [|lia]. reflexivity. }
+  rewrite Epos. unfold ren_next. cbv zeta.
+  rewrite pos_prev_self by (rewrite positions_len; exact Hk).
+  assert (Hlen := positions_len l).
+  destruct Hd as [-> | ->].
+  - change (0 <=? 1) with true. cbv iota. rewrite (pos_next_succ _ Hi) by lia. rewrite Hlen.
+    destruct (Z.leb_spec 0 (o + 1)); [|lia]. cbn [andb].
+    destruct (Nat.ltb_spec (S k) (length l)) as [Hl|Hl].
+    + destruct (Z.ltb_spec (o + 1) (slen l)); [|unfold slen in *; lia]. cbn [andb].
+      rewrite (ren_off_pos l (S k) Hl). replace (Z.of_nat (S k)) with (o + 1) by lia.
+      destruct (negb (N.eqb (b0 (chr_at l (o + 1))) 10)).
+      * specialize (Hn (S k) Hl). destruct (Z.ltb_spec (nth (S k) (positions l) 0) 0); [lia|].
+        rewrite (ren_off_pos l (S k) Hl). replace (Z.of_nat (S k)) with (o + 1) by lia. reflexivity.
+      * reflexivity.
+    + destruct (Z.ltb_spec (o + 1) (slen l)); [unfold slen in *; lia|]. cbn [andb].
+      destruct (negb _); reflexivity.
+  - change (0 <=? -1) with false. cbv iota. rewrite (pos_prev_pred _ Hi) by lia.
+    destruct (Z.ltb_spec (o + -1) (slen l)); [|lia]. rewrite andb_true_r.
+    destruct (Nat.ltb_spec 0 k) as [Hl|Hl].
+    + destruct (Z.leb_spec 0 (o + -1)); [|lia]. cbn [andb].
+      rewrite (ren_off_pos l (k - 1)%nat ltac:(lia)). replace (Z.of_nat (k - 1)) with (o + -1) by lia.
+      destruct (negb (N.eqb (b0 (chr_at l (o + -1))) 10)).
+      * specialize (Hn (k - 1)%nat ltac:(lia)). destruct (Z.ltb_spec (nth (k - 1) (positions l) 0) 0); [lia|].
+        rewrite (ren_off_pos l (k - 1)%nat ltac:(lia)). replace (Z.of_nat (k - 1)) with (o + -1) by lia. reflexivity.
+      * reflexivity.
+    + destruct (Z.leb_spec 0 (o + -1)); [lia|]. cbn [andb].
+      destruct (negb _); reflexivity.
 Qed.
